@@ -145,6 +145,21 @@ class ComponentLevel2( ComponentLevel1 ):
 
         current_idx = idx[ idx_depth ]
 
+        # ( "attr", names ): s.N used as an index or a slice bound. It is a
+        # constant if this instance holds an int / Bits value there
+        def attr_const( x ):
+          o = s
+          for nm in x[1]:
+            o = getattr( o, nm, None )
+          return int(o) if isinstance( o, (int, Bits) ) else "*"
+
+        if isinstance( current_idx, tuple ) and current_idx[0] == "attr":
+          current_idx = attr_const( current_idx )
+        elif isinstance( current_idx, slice ):
+          bounds = [ attr_const( b ) if isinstance( b, tuple ) and b[0] == "attr" else b
+                     for b in ( current_idx.start, current_idx.stop ) ]
+          current_idx = "*" if "*" in [ b for b in bounds if isinstance( b, str ) ] else slice( *bounds )
+
         if current_idx == "*": # special case, materialize all objects
           if isinstance( obj, NamedObject ): # Signal[*] is the signal itself
             # s.x[ s.idx ] <<= ... assigns to a temporary copy of the bit(s)
